@@ -64,6 +64,7 @@ structure U2FOK (env : Prog.Env) (o : AttObj) (h : Bytes) (res : Result) : Prop 
     X5c env o.stmt [(der, c)] ∧                                   -- exactly one certificate
     c.key = .ec 1 px py ∧                                          -- with a P-256 EC key
     Attested o d acd ∧ CredKey acd (.ec2 alg crv x y) ∧            -- and an EC2 credential key
+    crv = 1 ∧ (Bytes.stripZeros x).length ≤ 32 ∧ (Bytes.stripZeros y).length ≤ 32 ∧   -- on P-256, coordinates of at most 32 bytes (all of them signed)
     CertSigOK env der c alg (u2fMessage d.rpIdHash h acd.credentialId x y) (getSignature o.stmt) ∧
     res = ⟨"Unknown", [der]⟩
 
